@@ -191,11 +191,19 @@ def specRead (res : Res) (m0 : Content) : Query → Except Err View
   | .prodCons prod v sc n cc => specProdCons res m0 prod v sc n cc
   | .newY0 => specNewY0 res
 
-/-- the specification of a history: every read is answered from `(res, m0)` alone;
-    parameter changes on the shared model are invisible -/
-def specHistory (res : Res) (m0 : Content) : List Event → List (Except Err View)
-  | [] => []
-  | .read q :: rest => specRead res m0 q :: specHistory res m0 rest
-  | .setPars _ :: rest => .ok (.dict []) :: specHistory res m0 rest
+/-- the specification of a history: every read is answered from `(res, m0)` alone and
+    does not touch the shared model; `cur` is the model as its owner left it (only
+    `setPars` events change it) -/
+def specHistory (res : Res) (m0 : Content) : Content → List Event → List (Except Err View)
+  | _, [] => []
+  | cur, .read q :: rest => specRead res m0 q :: specHistory res m0 cur rest
+  | cur, .setPars p :: rest =>
+    match withPars cur p with
+    | .error e => .error e :: specHistory res m0 cur rest
+    | .ok c => .ok (.dict []) :: specHistory res m0 c rest
+  | cur, .modelPars :: rest =>
+    (match getParameterValues cur with
+     | .error e => .error e
+     | .ok ps => .ok (.dict ps)) :: specHistory res m0 cur rest
 
 end Mxl.C10
